@@ -1,6 +1,6 @@
 /-
 C20: refinement lemmas - one model step is one specification step (`step_refines`), observed
-identically (`obs_refines`), and the simulation lifted to the scenario runner `ReqMgrTrace`.
+identically (`obs_refines`); the simulation is lifted to the scenario runner in `C20Trace`.
 -/
 import Pko.Model.ReqMgr
 import Pko.Model.ReqMgrSpec
@@ -90,46 +90,5 @@ theorem machine_obs (s : State) (op : Op) (h : RInv s) :
 theorem machine_step (s : State) (op : Op) (h : RInv s) :
     Sim (modelMachine.step s op) (specMachine.step (abs s) op) :=
   ⟨step_inv s op h, step_refines s op h⟩
-
-theorem stepRec_sim (s : State) (sp : Spec) (st : SStep) (h : Sim s sp) :
-    (stepRec modelMachine s st).1 = (stepRec specMachine sp st).1 ∧
-    Sim (stepRec modelMachine s st).2 (stepRec specMachine sp st).2 := by
-  obtain ⟨hi, ha⟩ := h
-  subst ha
-  cases st with
-  | req c i =>
-    simp only [stepRec, machine_view, machine_obs s _ hi]
-    split
-    · exact ⟨rfl, hi, rfl⟩
-    · exact ⟨rfl, machine_step s (.request c i) hi⟩
-  | done i e =>
-    simp only [stepRec, machine_view, machine_obs s _ hi]
-    exact ⟨trivial, machine_step s _ hi⟩
-  | bad => exact ⟨rfl, hi, rfl⟩
-
-theorem runSteps_sim (sts : List SStep) (s : State) (sp : Spec) (h : Sim s sp) :
-    (runSteps modelMachine s sts).1 = (runSteps specMachine sp sts).1 ∧
-    Sim (runSteps modelMachine s sts).2 (runSteps specMachine sp sts).2 := by
-  induction sts generalizing s sp with
-  | nil => exact ⟨rfl, h⟩
-  | cons st sts ih =>
-    have h1 := stepRec_sim s sp st h
-    have h2 := ih _ _ h1.2
-    simp only [runSteps]
-    exact ⟨by rw [h1.1, h2.1], h2.2⟩
-
-theorem drain_sim (is : List Image) (s : State) (sp : Spec) (h : Sim s sp) :
-    (drain modelMachine s is).1 = (drain specMachine sp is).1 ∧
-    Sim (drain modelMachine s is).2 (drain specMachine sp is).2 := by
-  induction is generalizing s sp with
-  | nil => exact ⟨rfl, h⟩
-  | cons i is ih =>
-    obtain ⟨hi, ha⟩ := h
-    subst ha
-    simp only [drain, machine_view, machine_obs s _ hi]
-    split
-    · have h2 := ih _ _ (machine_step s (.complete i (.pkg (payload i ((specMachine.view (abs s)).started i)))) hi)
-      exact ⟨by rw [h2.1], h2.2⟩
-    · exact ih s (abs s) ⟨hi, rfl⟩
 
 end Pko.Lemmas.C20Refine
